@@ -22,6 +22,15 @@ func Root() string {
 	return "/verif"
 }
 
+// OutRoot is where evidence and replay artefacts are written: VERIF_OUT if set (used when the
+// checks are run against a deliberately broken tree in the lab), else Root().
+func OutRoot() string {
+	if r := os.Getenv("VERIF_OUT"); r != "" {
+		return r
+	}
+	return Root()
+}
+
 // Run collects what one check run covered.
 type Run struct {
 	ID    string
@@ -179,7 +188,7 @@ func (r *Run) Finish() int {
 	if r.Assumptions == nil {
 		out["assumptions"] = []string{}
 	}
-	root := Root()
+	root := OutRoot()
 	_ = os.MkdirAll(filepath.Join(root, "evidence"), 0o755)
 	b, _ := json.MarshalIndent(out, "", " ")
 	evp := filepath.Join(root, "evidence", r.ID+".json")
